@@ -41,7 +41,7 @@ THOROUGH_MC = {
 }
 SIMS = {"Sim_Log_a.cfg": (0, 1), "Sim_Log_b.cfg": (2, 2), "Sim_Log_c.cfg": (3, 3), "Sim_Log_d.cfg": (0, 2), "Sim_Log_e.cfg": (0, 3), "Sim_Log_f.cfg": (2, 2), "Sim_Log_g.cfg": (0, 2)}  # g: lastOffsetDelta = 2^31-1
 ASYNC_SIMS = {"Sim_Log_f.cfg"}  # flush-on-ack off  # d: 8 producers, many batches per segment
-DEV_PARAMS = {"NoRange": (0, 2), "TolerateLostIdx": (0, 2)}
+DEV_PARAMS = {"NoRange": (0, 2), "TolerateLostIdx": (0, 2), "ReadFloorSegment": (0, 2)}
 
 
 def harness(ctx, scheds, tag):
@@ -122,6 +122,7 @@ TRACE_CFG = """CONSTANTS
  DevNoFlushOnAck = FALSE
  DevTolerateLostIdx = FALSE
  DevRestoreCountsOrphan = FALSE
+ DevReadFloorSegment = FALSE
 INIT TInit
 NEXT TNext
 POSTCONDITION Reached
